@@ -178,6 +178,12 @@ def run_case(c, stats):
         for t in tags_of(ref):
             stats.cls("tag:" + t)
         nt = len(ref.prods) >= 2 and bool(ref.words(N))
+    k = c["nv"] + len(c["prods"])
+    if k % 3 == 0:
+        # the empty word is asked FIRST of the fresh object (its counters are used before anything is cached)
+        call(g.contains, [])
+    elif k % 3 == 1:
+        call(g.generate_epsilon)
     call(g.is_normal_form)
     ok, u = call(g.remove_useless_symbols)
     ok, e = call(g.remove_epsilon)
